@@ -100,6 +100,23 @@ struct Context {
     mode: ContextMode,
 }
 
+// what a submitted source is unwound to when it is rejected
+#[derive(Clone)]
+struct BuildMark {
+    ctx: Context,
+    nested_len: usize,
+    input_len: usize,
+    cs_len: usize,
+    fs_len: usize,
+    rs_len: usize,
+    ls_len: usize,
+    ss_len: usize,
+    di_len: usize,
+    heap_len: usize,
+    ds_len: usize,
+    rl_len: usize,
+}
+
 #[derive(Debug, Clone, Default, PartialEq)]
 pub struct Frame {
     fn_addr: usize,
@@ -157,6 +174,8 @@ pub struct State {
     stdout: Option<String>,
     last_error: Option<ErrorContext>,
     last_token: Option<Xsubstr>,
+    // the last run()/next() stopped on an error; the next source abandons the rest of that code
+    run_failed: bool,
     pub(crate) about_to_stop: bool,
     pub(crate) bitstr_mod: BitstrState,
     // d2 canvas
@@ -352,17 +371,79 @@ impl State {
 
     fn build_from_file(&mut self, path: Xstr, mode: ContextMode) -> Xresult {
         let s = crate::file::fs_overlay::read_source_file(&path)?;
-        self.context_open(mode)?;
-        self.intern_source(s.into(), Some(path))?;
-        self.build0()?;
-        self.context_close()
+        self.build_from(s.into(), Some(path), mode)
     }
 
     fn build_from_source(&mut self, s: Xstr, mode: ContextMode) -> Xresult {
-        self.context_open(mode)?;
-        self.intern_source(s, None)?;
-        self.build0()?;
-        self.context_close()
+        self.build_from(s, None, mode)
+    }
+
+    fn build_from(&mut self, s: Xstr, path: Option<Xstr>, mode: ContextMode) -> Xresult {
+        if self.run_failed {
+            // code that stopped on a run-time error is abandoned, never resumed by a later source
+            self.run_failed = false;
+            self.ctx.ip = self.code_origin();
+        }
+        let mark = self.build_mark();
+        let built = self
+            .context_open(mode)
+            .and_then(|_| self.intern_source(s, path))
+            .and_then(|_| self.build0());
+        if let Err(e) = built {
+            // rejected while being read or compiled: as if it had never been submitted
+            self.unwind_build(mark);
+            return Err(e);
+        }
+        if let Err(e) = self.context_close() {
+            // failed at run time: what it did stays, but mode and nesting go back
+            // and the rest of its code is never executed
+            self.unwind_run(mark);
+            return Err(e);
+        }
+        OK
+    }
+
+    fn build_mark(&self) -> BuildMark {
+        BuildMark {
+            ctx: self.ctx.clone(),
+            nested_len: self.nested.len(),
+            input_len: self.input.len(),
+            cs_len: self.code.len(),
+            fs_len: self.flow_stack.len(),
+            rs_len: self.return_stack.len(),
+            ls_len: self.loops.len(),
+            ss_len: self.special.len(),
+            di_len: self.dict.len(),
+            heap_len: self.heap.len(),
+            ds_len: self.data_stack.len(),
+            rl_len: self.reverse_log.as_ref().map(|log| log.len()).unwrap_or(0),
+        }
+    }
+
+    fn unwind_build(&mut self, mark: BuildMark) {
+        self.unwind_run(mark.clone());
+        self.ctx.ip = mark.ctx.ip;
+        self.run_failed = false;
+        self.code.truncate(mark.cs_len);
+        self.debug_map.truncate(mark.cs_len);
+        self.return_stack.truncate(mark.rs_len);
+        self.loops.truncate(mark.ls_len);
+        self.special.truncate(mark.ss_len);
+        self.dict.truncate(mark.di_len);
+        self.heap.truncate(mark.heap_len);
+        self.data_stack.truncate(mark.ds_len);
+        if let Some(log) = self.reverse_log.as_mut() {
+            log.truncate(mark.rl_len);
+        }
+    }
+
+    fn unwind_run(&mut self, mark: BuildMark) {
+        self.input.truncate(mark.input_len);
+        self.nested.truncate(mark.nested_len);
+        self.flow_stack.truncate(mark.fs_len);
+        self.ctx = mark.ctx;
+        self.ctx.ip = self.code_origin();
+        self.run_failed = false;
     }
 
     pub fn eval_file(&mut self, path: Xstr) -> Xresult {
@@ -894,9 +975,11 @@ impl State {
 
     pub fn run(&mut self) -> Xresult {
         self.clear_last_error();
+        self.run_failed = false;
         while self.is_running() {
             self.fetch_and_run().map_err(|e| {
                 self.set_runtime_err_location(&e);
+                self.run_failed = true;
                 e
             })?;
         }
@@ -1157,8 +1240,10 @@ impl State {
     pub fn next(&mut self) -> Xresult {
         if self.is_running() {
             self.clear_last_error();
+            self.run_failed = false;
             self.fetch_and_run().map_err(|e| {
                 self.set_runtime_err_location(&e);
+                self.run_failed = true;
                 e
             })?;
         }
